@@ -106,11 +106,15 @@ class StmtMixin:
             nxt = []
             for s in states:
                 for s1, (base, key) in self.ev_list([tgt.value, tgt.slice], s):
+                    base = self.unwrap_opt(s1, base, tgt, "subscript-of-None")
                     if not isinstance(base.ty, T.Dict): raise VCError("del on %s" % base.ty)
                     k = self.coerce(key, base.ty.k).t
                     self.oblige(s1, z3.Select(T.dict_dom(base.ty, base.t), k), "del:key-in-dict", node)
                     nv = SV(base.ty, T.dict_mk(base.ty, z3.Store(T.dict_dom(base.ty, base.t), k, z3.BoolVal(False)), T.dict_map(base.ty, base.t)))
-                    nxt.extend(self.assign(tgt.value, nv, s1, quiet=True))
+                    if base.box is not None:
+                        self.hwrite(s1, base.box[0], "val", base.box[1], nv.t); nxt.append(s1)
+                    else:
+                        nxt.extend(self.assign(tgt.value, nv, s1, quiet=True))
             states = nxt
         for s in states: yield "fall", s, None
 
@@ -154,6 +158,17 @@ class StmtMixin:
                 base = self.unwrap_opt(s1, base, tgt)
                 if not isinstance(base.ty, T.Obj): raise VCError("attribute assignment on %s" % base.ty)
                 sch = R.SCHEMAS[base.ty.family]
+                if tgt.attr in sch.funfields:
+                    if val.ty != PyFunc or val.t[0] != "bound": raise VCError("function-valued attribute %s assigned a non-method" % tgt.attr)
+                    mname = val.t[1].rsplit(".", 1)[1]
+                    tmp = s1.fork(); tmp.env = {"self": base}
+                    prev = []; ok = []
+                    for cond, meth in sch.funfields[tgt.attr]:
+                        cnd = self.spec_eval(cond, tmp, None)
+                        if meth == mname: ok.append(z3.And([z3.Not(p) for p in prev] + [cnd]))
+                        prev.append(cnd)
+                    self.oblige(s1, z3.Or(ok + [z3.BoolVal(False)]), "function-attribute-%s-matches-declared-dispatch" % tgt.attr, tgt)
+                    yield s1; continue
                 if tgt.attr in sch.fields:
                     self.hwrite(s1, base.ty.family, tgt.attr, base.t, self.coerce(val, sch.fields[tgt.attr], s1, tgt).t)
                     yield s1; continue
@@ -189,7 +204,10 @@ class StmtMixin:
                     nv = SV(ty, T.tup_mk(ty, *comps))
                 else:
                     raise VCError("subscript assignment on %s" % ty)
-                yield from self.assign(tgt.value, nv, s1, quiet=True)
+                if base.box is not None:
+                    self.hwrite(s1, base.box[0], "val", base.box[1], nv.t); yield s1
+                else:
+                    yield from self.assign(tgt.value, nv, s1, quiet=True)
             return
         raise VCError("assignment target %s" % type(tgt).__name__)
 
